@@ -23,6 +23,7 @@ import (
 	"sort"
 	"strings"
 	"sync"
+	"sync/atomic"
 	"syscall"
 	"time"
 
@@ -98,10 +99,7 @@ func c05StartPair(opts ...sftp.ServerOption) (*sftp.Client, func(), error) {
 	}()
 	kill := func() {
 		c2sW.Close()
-		select {
-		case <-done:
-		case <-time.After(5 * time.Second):
-		}
+		lib.WaitCleanup("c05/server-exit", 5*time.Second, done) // clean-up wait, bounded by its own budget (lib/budget.go)
 		s2cW.Close()
 		c2sR.Close()
 	}
@@ -111,8 +109,15 @@ func c05StartPair(opts ...sftp.ServerOption) (*sftp.Client, func(), error) {
 			kill()
 			return nil, nil, r.err
 		}
-		return r.c, func() { r.c.Close(); kill() }, nil
-	case <-time.After(20 * time.Second):
+		return r.c, func() {
+			// clean-up, not an oracle: Client.Close waits for the receiver, which waits for the server to end its output
+			closed := make(chan struct{})
+			go func() { r.c.Close(); close(closed) }()
+			lib.WaitCleanup("c05/client-close", 5*time.Second, closed)
+			kill()
+		}, nil
+	case <-time.After(lib.HangWait(20 * time.Second)):
+		lib.SpendHang(c05Phase(), lib.HangWait(20*time.Second))
 		kill()
 		return nil, nil, errors.New("client handshake timed out")
 	}
@@ -514,14 +519,23 @@ func c05Guard(f func() c05Out) c05Out {
 		}()
 		ch <- f()
 	}()
-	t := time.NewTimer(20 * time.Second)
-	defer t.Stop()
-	select {
-	case o := <-ch:
-		return o
-	case <-t.C:
+	// the 20 s come out of the run's hang budget (lib/budget.go), charged to the phase the check is in
+	o, ok := lib.WaitHang(c05Phase(), 20*time.Second, ch)
+	if !ok {
 		return c05Out{Cat: "hang", Err: "no result after 20 s"}
 	}
+	return o
+}
+
+// c05Phase is the hang class of the calls made now: c05/seq (the generated sequences), c05/shrink (re-runs of a
+// failing sequence while it is minimised), c05/composite (the composite-model family).
+var c05PhaseV atomic.Value
+
+func c05Phase() string {
+	if s, ok := c05PhaseV.Load().(string); ok {
+		return s
+	}
+	return "c05/seq"
 }
 
 // ---------------------------------------------------------------------------------------------
@@ -910,7 +924,7 @@ func c05Shrink(in c05Input, key, sig string, step int) c05Input {
 	}
 	budget := 600
 	try := func(c c05Input) bool {
-		if budget <= 0 {
+		if budget <= 0 || lib.Stopped("c05/shrink") {
 			return false
 		}
 		budget--
@@ -1028,7 +1042,7 @@ func checkC05(c *lib.Ctx) {
 		go func() {
 			defer wg.Done()
 			for i := range next {
-				if time.Now().After(deadline) {
+				if time.Now().After(deadline) || c.Stop("c05/seq") {
 					continue
 				}
 				rng := rand.New(rand.NewSource(jobs[i].seed))
@@ -1039,6 +1053,7 @@ func checkC05(c *lib.Ctx) {
 	}
 	wg.Wait()
 
+	c05PhaseV.Store("c05/shrink")
 	shrunk := map[string]map[string]bool{}
 	skippedSeqs := 0
 	orderOff := 0
@@ -1059,6 +1074,13 @@ func checkC05(c *lib.Ctx) {
 				continue
 			}
 			shrunk[f.Key][f.Sig] = true
+			if strings.HasPrefix(f.Key, "hang/") {
+				// every re-run of a hanging sequence costs a hang deadline: the sequence is cut after the hanging call and
+				// reported as it is, not minimised
+				min := c05Input{Mode: res.in.Mode, Tree: append([]c05Ent{}, res.in.Tree...), Ops: append([]c05Op{}, res.in.Ops[:f.Step+1]...)}
+				r.Fail(lib.Failure{Kind: "oracle", Key: f.Key, What: fmt.Sprintf("%s [%s paths]: %s", c05OpText(f.Op), min.Mode, f.What), Input: min, Expected: f.Expected, Actual: f.Actual})
+				continue
+			}
 			min := c05Shrink(res.in, f.Key, f.Sig, f.Step)
 			// re-run the minimal input for the evidence shown with it
 			exp, act, what, stepText := f.Expected, f.Actual, f.What, c05OpText(f.Op)
@@ -1081,7 +1103,7 @@ func checkC05(c *lib.Ctx) {
 	}
 	var missing []string
 	for _, s := range c05WantedShapes {
-		if r.Histogram["shape:"+s] == 0 {
+		if r.HistGet("shape:"+s) == 0 {
 			missing = append(missing, s)
 		}
 	}
@@ -1091,6 +1113,7 @@ func checkC05(c *lib.Ctx) {
 
 	// family composite-model: the composites against their Lean model and the os reference semantics (c05_composite.go)
 	r.Rule += c05cRule
+	c05PhaseV.Store("c05/composite")
 	checkC05Composite(c)
 }
 
@@ -1108,7 +1131,7 @@ func c05Merge(r *lib.Result, res *c05SeqResult, idx *int) {
 		r.Case(cs.canon, cs.nontrivial)
 	}
 	for _, k := range lib.SortedKeys(res.hist) {
-		r.Histogram[k] += res.hist[k]
+		r.HistAdd(k, res.hist[k])
 	}
 	if idx != nil && *idx < 4 {
 		ops := res.in.Ops
